@@ -647,8 +647,9 @@ func (fr *Frame) instr(b *ssa.BasicBlock, in ssa.Instruction, st *State) *Exit {
 		fe.pre.decl(fmt.Sprintf("(declare-fun %s (Int) Int)", fn))
 		base := fr.val(x.X).S
 		t := fr.setVal(x, fmt.Sprintf("(%s %s)", fn, base))
-		// the address of a field of a non-nil struct is not nil
-		fe.assume(fmt.Sprintf("(=> (not (= %s 0)) (not (= %s 0)))", base, t.S))
+		// the address of a field of a non-nil struct is a genuine (positive) pointer: not nil, and not one of the negative
+		// constants that stand for an interface holding a typed nil
+		fe.assume(fmt.Sprintf("(=> (not (= %s 0)) (> %s 0))", base, t.S))
 	case *ssa.IndexAddr:
 		idx := fr.val(x.Index).S
 		switch t := x.X.Type().Underlying().(type) {
@@ -956,7 +957,12 @@ func (fe *FuncEnc) newRef(base string) string {
 		if g == "" {
 			g = "true"
 		}
-		fe.assume(fmt.Sprintf("(forall ((qs Slice) (qi Int)) (! (=> (and %s (< (born (s_base qs)) %d)) (not (= (at_Int %s qs qi) %s))) :pattern ((at_Int %s qs qi))))", g, fe.allocSeq, hv, n, hv))
+		// the heap version may be a defined merge (an ite over path conditions), which z3 refuses inside a pattern:
+		// name it by a constant
+		hc := fe.fresh("HS_Int_at")
+		fe.declConst(hc, fe.heapSorts["HS_Int"])
+		fe.assumeGlobal(fmt.Sprintf("(= %s %s)", hc, hv))
+		fe.assume(fmt.Sprintf("(forall ((qs Slice) (qi Int)) (! (=> (and %s (< (born (s_base qs)) %d)) (not (= (at_Int %s qs qi) %s))) :pattern ((at_Int %s qs qi))))", g, fe.allocSeq, hc, n, hc))
 	}
 	fe.allocs = append(fe.allocs, n)
 	return n
@@ -1005,7 +1011,11 @@ func (fe *FuncEnc) escapes(a ssa.Value) bool {
 			}
 		case *ssa.DebugRef:
 		case *ssa.Slice:
-			return true
+			// a slice of the array that is only indexed, measured and ranged over here (the table of a
+			// "for _, c := range []T{…}" loop) leaves the array private
+			if x.X != a || fe.sliceValueEscapes(x) {
+				return true
+			}
 		case *ssa.MakeClosure:
 			// captured by a closure: the cell stays private if no capturing closure writes it or leaks its address
 			for i, b := range x.Bindings {
@@ -1014,6 +1024,31 @@ func (fe *FuncEnc) escapes(a ssa.Value) bool {
 						return true
 					}
 				}
+			}
+		default:
+			return true
+		}
+	}
+	return false
+}
+
+// sliceValueEscapes: is the slice value used for anything but reading its elements and its length?
+func (fe *FuncEnc) sliceValueEscapes(sv ssa.Value) bool {
+	refs := sv.Referrers()
+	if refs == nil {
+		return true
+	}
+	for _, r := range *refs {
+		switch x := r.(type) {
+		case *ssa.DebugRef:
+		case *ssa.IndexAddr:
+			if x.X != sv || fe.interiorEscapes(x) {
+				return true
+			}
+		case *ssa.Call:
+			b, ok := x.Call.Value.(*ssa.Builtin)
+			if !ok || (b.Name() != "len" && b.Name() != "cap") {
+				return true
 			}
 		default:
 			return true
